@@ -34,14 +34,46 @@ Variable H : bytes -> bytes.
 (** the hash computed from scratch *)
 Definition hspec (n : node) (force : bool) : href := fst (hash_node H (erase n) force).
 
-(** every cached hash below (and at) [n] is the from-scratch hash of its node; [root] tells
-    whether [n] itself sits at the root (hashed with force) or inside a parent *)
+Definition href_opt (r : href) : option bytes := match r with HHash h => Some h | _ => None end.
+
+(** [exact root n]: the whole subtree is flagged exactly as a complete hashing pass leaves it
+    (a node carries its hash iff its encoding is hashed, i.e. not embedded) *)
+Fixpoint exact (root : bool) (n : node) {struct n} : Prop :=
+  match n with
+  | Short k c f => fhash f = href_opt (hspec n root) /\ exact false c
+  | Full cs f =>
+    fhash f = href_opt (hspec n root) /\
+    (fix all (l : list node) : Prop :=
+       match l with [] => True | c :: t => exact false c /\ all t end) cs
+  | _ => True
+  end.
+
+Fixpoint all_exact (l : list node) : Prop :=
+  match l with [] => True | c :: t => exact false c /\ all_exact t end.
+
+Lemma exact_full root cs f :
+  exact root (Full cs f) <-> fhash f = href_opt (hspec (Full cs f) root) /\ all_exact cs.
+Proof.
+  cbn [exact]. split; intros [H1 H2]; split; auto; clear H1;
+    induction cs as [|c t IH]; cbn in *; auto; destruct H2; split; auto.
+Qed.
+
+Lemma exact_short root k c f :
+  exact root (Short k c f) <-> fhash f = href_opt (hspec (Short k c f) root) /\ exact false c.
+Proof. reflexivity. Qed.
+
+(** the cache invariant: every node is dirty (nothing below has been written to the database
+    yet); every cached hash below (and at) [n] is the from-scratch hash of its node and the
+    subtree under a node that carries a hash is completely flagged; [root] tells whether [n]
+    itself sits at the root (hashed with force) or inside a parent *)
 Fixpoint caches_ok (root : bool) (n : node) {struct n} : Prop :=
   match n with
   | Short k c f =>
-    (forall h, fhash f = Some h -> HHash h = hspec n root) /\ caches_ok false c
+    fdirty f = true /\
+    (forall h, fhash f = Some h -> HHash h = hspec n root /\ exact false c) /\ caches_ok false c
   | Full cs f =>
-    (forall h, fhash f = Some h -> HHash h = hspec n root) /\
+    fdirty f = true /\
+    (forall h, fhash f = Some h -> HHash h = hspec n root /\ all_exact cs) /\
     (fix all (l : list node) : Prop :=
        match l with [] => True | c :: t => caches_ok false c /\ all t end) cs
   | _ => True
@@ -52,15 +84,18 @@ Fixpoint all_ok (l : list node) : Prop :=
 
 Lemma caches_ok_full root cs f :
   caches_ok root (Full cs f) <->
-  (forall h, fhash f = Some h -> HHash h = hspec (Full cs f) root) /\ all_ok cs.
+  fdirty f = true /\
+  (forall h, fhash f = Some h -> HHash h = hspec (Full cs f) root /\ all_exact cs) /\ all_ok cs.
 Proof.
-  cbn [caches_ok]. split; intros [H1 H2]; split; auto; clear H1;
+  cbn [caches_ok]. split; intros (H0 & H1 & H2); (split; [auto|split; [auto|]]); clear H0 H1;
     induction cs as [|c t IH]; cbn in *; auto; destruct H2; split; auto.
 Qed.
 
 Lemma caches_ok_short root k c f :
   caches_ok root (Short k c f) <->
-  (forall h, fhash f = Some h -> HHash h = hspec (Short k c f) root) /\ caches_ok false c.
+  fdirty f = true /\
+  (forall h, fhash f = Some h -> HHash h = hspec (Short k c f) root /\ exact false c) /\
+  caches_ok false c.
 Proof. reflexivity. Qed.
 
 Lemma all_ok_forall l : all_ok l <-> Forall (caches_ok false) l.
@@ -70,12 +105,19 @@ Proof.
   - intros Hf. inversion Hf; subst. split; auto. apply IH; auto.
 Qed.
 
-(** a node whose own flag carries no hash is fine in any position if its children are *)
-Lemma caches_ok_fresh_short root k c d : caches_ok false c -> caches_ok root (Short k c (mkFlag None d)).
-Proof. intros Hc. apply caches_ok_short. split; auto. cbn. discriminate. Qed.
+Lemma all_exact_forall l : all_exact l <-> Forall (exact false) l.
+Proof.
+  induction l as [|c t IH]; cbn; split; auto.
+  - intros [H1 H2]. constructor; auto. apply IH; auto.
+  - intros Hf. inversion Hf; subst. split; auto. apply IH; auto.
+Qed.
 
-Lemma caches_ok_fresh_full root cs d : all_ok cs -> caches_ok root (Full cs (mkFlag None d)).
-Proof. intros Hc. apply caches_ok_full. split; auto. cbn. discriminate. Qed.
+(** a freshly built node (Trie.newFlag) is fine in any position if its children are *)
+Lemma caches_ok_fresh_short root k c : caches_ok false c -> caches_ok root (Short k c newflag).
+Proof. intros Hc. apply caches_ok_short. split; [reflexivity|]. split; auto. cbn. discriminate. Qed.
+
+Lemma caches_ok_fresh_full root cs : all_ok cs -> caches_ok root (Full cs newflag).
+Proof. intros Hc. apply caches_ok_full. split; [reflexivity|]. split; auto. cbn. discriminate. Qed.
 
 Lemma caches_ok_leaf root n : (match n with Short _ _ _ | Full _ _ => False | _ => True end) -> caches_ok root n.
 Proof. destruct n; cbn; tauto. Qed.
@@ -106,50 +148,85 @@ Qed.
 Lemma flag_after_none r fl h : fhash (flag_after r fl) = Some h -> r = HHash h.
 Proof. destruct r; cbn; intros E; inversion E; auto. Qed.
 
-(** hashing computes the from-scratch hash, keeps the content, and leaves correct caches *)
-Lemma hash_node_ok n : forall root, caches_ok root n ->
+Lemma flag_after_hash r fl : fhash (flag_after r fl) = href_opt r.
+Proof. destruct r; reflexivity. Qed.
+
+Lemma flag_after_dirty r fl : fdirty (flag_after r fl) = fdirty fl.
+Proof. destruct r; reflexivity. Qed.
+
+(** hashing computes the from-scratch hash, keeps the content, leaves correct caches, and
+    flags the whole subtree *)
+Lemma hash_node_ok4 n : forall root, caches_ok root n ->
   fst (hash_node H n root) = hspec n root /\
   erase (snd (hash_node H n root)) = erase n /\
-  caches_ok root (snd (hash_node H n root)).
+  caches_ok root (snd (hash_node H n root)) /\
+  exact root (snd (hash_node H n root)).
 Proof.
   induction n using node_ind'; intros root Hok.
   - cbn. auto.
   - cbn. auto.
   - (* Short *)
-    apply caches_ok_short in Hok as [Hown Hc]. cbn [hash_node].
+    apply caches_ok_short in Hok as (Hd & Hown & Hc). cbn [hash_node].
     destruct (fhash f) as [h|] eqn:Ef.
-    + cbn [fst snd]. split; [apply Hown; reflexivity|]. split; auto. apply caches_ok_short. split; auto. rewrite Ef. auto.
-    + destruct (IHn false Hc) as (E1 & E2 & E3). cbn [fst snd].
-      rewrite E1. split; [symmetry; apply hspec_short|]. split; [cbn [erase]; rewrite E2; reflexivity|].
-      apply caches_ok_short. split; auto.
-      intros h Hh. apply flag_after_none in Hh. rewrite <- Hh.
-      rewrite hspec_short.
-      replace (hspec (snd (hash_node H n false)) false) with (hspec n false)
-        by (unfold hspec; rewrite E2; reflexivity).
-      reflexivity.
+    + cbn [fst snd]. destruct (Hown h eq_refl) as [E1 E2].
+      split; [exact E1|]. split; auto.
+      split; [apply caches_ok_short; rewrite Ef; auto|].
+      apply exact_short. rewrite Ef, <- E1. auto.
+    + destruct (IHn false Hc) as (E1 & E2 & E3 & E4). cbn [fst snd].
+      rewrite E1.
+      assert (Eh : hspec (Short k (snd (hash_node H n false))
+                            (flag_after (finish H (short_enc k (hspec n false)) root) f)) root
+                   = finish H (short_enc k (hspec n false)) root).
+      { rewrite hspec_short.
+        replace (hspec (snd (hash_node H n false)) false) with (hspec n false)
+          by (unfold hspec; rewrite E2; reflexivity).
+        reflexivity. }
+      split; [symmetry; apply hspec_short|]. split; [cbn [erase]; rewrite E2; reflexivity|].
+      split.
+      * apply caches_ok_short. split; [rewrite flag_after_dirty; auto|]. split; auto.
+        intros h Hh. apply flag_after_none in Hh. rewrite Eh, Hh. auto.
+      * apply exact_short. rewrite Eh, flag_after_hash. auto.
   - (* Full *)
-    apply caches_ok_full in Hok as [Hown Hc]. cbn [hash_node].
+    apply caches_ok_full in Hok as (Hd & Hown & Hc). cbn [hash_node].
     destruct (fhash f) as [h|] eqn:Ef.
-    + cbn [fst snd]. split; [apply Hown; reflexivity|]. split; auto. apply caches_ok_full. split; auto. rewrite Ef. auto.
+    + cbn [fst snd]. destruct (Hown h eq_refl) as [E1 E2].
+      split; [exact E1|]. split; auto.
+      split; [apply caches_ok_full; rewrite Ef; auto|].
+      apply exact_full. rewrite Ef, <- E1. auto.
     + cbn [fst snd]. rewrite !map_map.
-      apply all_ok_forall in Hc.
+      apply all_ok_forall in Hc. rewrite Forall_forall in H0, Hc.
       assert (E1 : map (fun c => fst (hash_node H c false)) cs = map (fun c => hspec c false) cs).
-      { apply map_ext_in. intros c Hin. rewrite Forall_forall in H0, Hc.
-        destruct (H0 c Hin false (Hc c Hin)) as (E & _ & _). auto. }
-      assert (E2 : map erase (map (fun c => snd (hash_node H c false)) cs) = map erase cs).
-      { rewrite map_map. apply map_ext_in. intros c Hin. rewrite Forall_forall in H0, Hc.
+      { apply map_ext_in. intros c Hin. destruct (H0 c Hin false (Hc c Hin)) as (E & _). auto. }
+      assert (E2 : map (fun c => hspec (snd (hash_node H c false)) false) cs = map (fun c => hspec c false) cs).
+      { apply map_ext_in. intros c Hin. destruct (H0 c Hin false (Hc c Hin)) as (_ & E & _).
+        unfold hspec. rewrite E. reflexivity. }
+      rewrite E1.
+      assert (Eh : hspec (Full (map (fun c => snd (hash_node H c false)) cs)
+                            (flag_after (finish H (full_enc (map (fun c => hspec c false) cs)) root) f)) root
+                   = finish H (full_enc (map (fun c => hspec c false) cs)) root).
+      { rewrite hspec_full, map_map, E2. reflexivity. }
+      split; [symmetry; apply hspec_full|].
+      split.
+      { cbn [erase]. f_equal. rewrite !map_map. apply map_ext_in. intros c Hin.
         destruct (H0 c Hin false (Hc c Hin)) as (_ & E & _). auto. }
-      rewrite E1. split; [symmetry; apply hspec_full|].
-      split; [cbn [erase]; rewrite map_map in E2; rewrite map_map; rewrite E2; reflexivity|].
-      apply caches_ok_full. split.
-      * intros h Hh. apply flag_after_none in Hh. rewrite <- Hh.
-        rewrite hspec_full. f_equal. f_equal. rewrite map_map.
-        apply map_ext_in. intros c Hin. rewrite Forall_forall in H0, Hc.
-        destruct (H0 c Hin false (Hc c Hin)) as (_ & E & _). unfold hspec. rewrite E. reflexivity.
-      * apply all_ok_forall. apply Forall_forall. intros c' Hin. apply in_map_iff in Hin as (c & <- & Hin).
-        rewrite Forall_forall in H0, Hc. destruct (H0 c Hin false (Hc c Hin)) as (_ & _ & E). auto.
+      split.
+      * apply caches_ok_full. split; [rewrite flag_after_dirty; auto|]. split.
+        -- intros h Hh. apply flag_after_none in Hh. rewrite Eh, Hh. split; auto.
+           apply all_exact_forall, Forall_forall. intros c' Hin. apply in_map_iff in Hin as (c & <- & Hin).
+           destruct (H0 c Hin false (Hc c Hin)) as (_ & _ & _ & E). auto.
+        -- apply all_ok_forall, Forall_forall. intros c' Hin. apply in_map_iff in Hin as (c & <- & Hin).
+           destruct (H0 c Hin false (Hc c Hin)) as (_ & _ & E & _). auto.
+      * apply exact_full. rewrite Eh, flag_after_hash. split; auto.
+        apply all_exact_forall, Forall_forall. intros c' Hin. apply in_map_iff in Hin as (c & <- & Hin).
+        destruct (H0 c Hin false (Hc c Hin)) as (_ & _ & _ & E). auto.
   - cbn. auto.
 Qed.
+
+Lemma hash_node_ok n root : caches_ok root n ->
+  fst (hash_node H n root) = hspec n root /\
+  erase (snd (hash_node H n root)) = erase n /\
+  caches_ok root (snd (hash_node H n root)).
+Proof. intros Hok. destruct (hash_node_ok4 n root Hok) as (A & B & C & _). auto. Qed.
 
 (* ------------------------------------------------------------------ set_nth and caches *)
 
@@ -176,8 +253,10 @@ Lemma caches_ok_any_of_fresh n : caches_ok false n ->
   forall root, caches_ok root n.
 Proof.
   intros Hn Hf root. destruct n; auto.
-  - apply caches_ok_short in Hn as [_ Hc]. apply caches_ok_short. split; auto. rewrite Hf. discriminate.
-  - apply caches_ok_full in Hn as [_ Hc]. apply caches_ok_full. split; auto. rewrite Hf. discriminate.
+  - apply caches_ok_short in Hn as (Hd & _ & Hc). apply caches_ok_short. split; auto. split; auto.
+    rewrite Hf. discriminate.
+  - apply caches_ok_full in Hn as (Hd & _ & Hc). apply caches_ok_full. split; auto. split; auto.
+    rewrite Hf. discriminate.
 Qed.
 
 (* ------------------------------------------------------------------ insert keeps the caches correct *)
@@ -232,7 +311,7 @@ Proof.
       * split; auto. reflexivity.
       * split; [apply (caches_ok_fresh_short false); auto|reflexivity].
   - (* Ext *)
-    apply caches_ok_short in Hok as [_ Hokc].
+    apply caches_ok_short in Hok as (_ & _ & Hokc).
     destruct (prefix_len_split (k0 :: kt) nk) as (pre & rk & rn & Ek & Enk & Hml & Hdiv).
     destruct rn as [|oi rn'].
     + rewrite app_nil_r in Enk. subst pre. rewrite Ek in Hk, Hi.
@@ -260,7 +339,7 @@ Proof.
       * split; auto. reflexivity.
       * split; [apply (caches_ok_fresh_short false); auto|reflexivity].
   - (* Full *)
-    apply caches_ok_full in Hok as [_ Hokc].
+    apply caches_ok_full in Hok as (_ & _ & Hokc).
     rewrite insert_full_eq in Hi. cbn in Hk.
     assert (Hk0 : k0 <= 16) by lia.
     destruct (nth_error_lt_some cs k0) as (c & Hnc); [lia|]. rewrite Hnc in Hi.
@@ -297,7 +376,7 @@ Proof.
     + destruct only as [|v|ck cv fo|cs1 fo|h]; cbn [rbind] in Hco; try (inversion Hco; subst).
       * split; auto. split; [apply (caches_ok_fresh_short false); auto|reflexivity].
       * split; auto. split; [apply (caches_ok_fresh_short false); auto|reflexivity].
-      * split; auto. apply caches_ok_short in Hok as [_ Hcv].
+      * split; auto. apply caches_ok_short in Hok as (_ & _ & Hcv).
         split; [apply (caches_ok_fresh_short false); auto|reflexivity].
       * split; auto. split; [apply (caches_ok_fresh_short false); auto|reflexivity].
       * exfalso. eapply Hnoref; eauto.
@@ -330,7 +409,7 @@ Proof.
     + destruct f as [|f]; [discriminate|]. cbn [delete rbind fst snd] in Hi.
       inversion Hi; subst. right. split; auto.
       split; [apply (caches_ok_fresh_short false); cbn; auto|reflexivity].
-  - apply caches_ok_short in Hok as [_ Hokc].
+  - apply caches_ok_short in Hok as (_ & _ & Hokc).
     rewrite delete_short_eq in Hi. cbv zeta in Hi.
     destruct (prefix_len_split k nk) as (pre & rk & rn & Ek & Enk & Hml & Hdiv).
     rewrite <- Hml in Hi.
@@ -348,11 +427,11 @@ Proof.
       destruct b1; [|inversion Hi; subst; left; auto].
       destruct n1 as [|v1|ck cc fc|cs1 f1|h1]; inversion Hi; subst; right; split; auto;
         (split; [|reflexivity]); apply (caches_ok_fresh_short false); auto.
-      apply caches_ok_short in Hn1 as [_ Hcc]. auto.
+      apply caches_ok_short in Hn1 as (_ & _ & Hcc). auto.
     + assert (Hlt : Nat.ltb (length pre) (length nk) = true).
       { apply Nat.ltb_lt. rewrite Enk, app_length. cbn. lia. }
       rewrite Hlt in Hi. inversion Hi; subst. left; auto.
-  - apply caches_ok_full in Hok as [_ Hokc].
+  - apply caches_ok_full in Hok as (_ & _ & Hokc).
     destruct k as [|k0 kt]; [cbn in Hk; tauto|]. rewrite delete_full_eq in Hi.
     assert (Hk0 : k0 <= 16) by (cbn in Hk; lia).
     destruct (nth_error_lt_some cs k0) as (c & Hnc); [lia|]. rewrite Hnc in Hi.
